@@ -43,11 +43,32 @@ def shard_setup(rec, tier):
         root = B.master(seed).neuter()
         for chain in (0, 1):
             node = root.ckd_pub(chain)
+            _S.setdefault('node', {})[(si, chain)] = node
             lst = []
             for n in range(70 if chain == 0 else 40):
                 h = B.hash160(node.ckd_pub(n).pub_bytes)
                 lst.append((h, B.b58check_encode(PREFIX + h)))
             _S['addr'][(si, chain)] = lst
+
+
+def _ref_owner(h160, nacc, extend=True):
+    """(account, chain, n) of a reference address, or None. The change chain table is extended on demand (the wallet picks its own
+    change address when it builds a payment)."""
+    for _ in range(2):
+        for (ai, c), lst in _S['addr'].items():
+            if ai < nacc:
+                for n, (h, _a) in enumerate(lst):
+                    if h == h160:
+                        return ai, c, n
+        if not extend:
+            break
+        for ai in range(nacc):
+            lst, node = _S['addr'][(ai, 1)], _S['node'][(ai, 1)]
+            for n in range(len(lst), len(lst) + 20):
+                h = B.hash160(node.ckd_pub(n).pub_bytes)
+                lst.append((h, B.b58check_encode(PREFIX + h)))
+        extend = False
+    return None
 
 
 def gen_cases(rng, tier, shard, nshards):
@@ -67,6 +88,7 @@ class ToyChain:
         self.mempool = []       # txids in arrival order
         self.spent = {}         # (txid, n) -> spending txid
         self.order = 0
+        self.by_addr = {}       # hash160 -> [txid] in arrival order: index behind history() (history_scan() is the definition)
 
     def add(self, ins, outs):
         tins = []
@@ -81,7 +103,25 @@ class ToyChain:
         self.mempool.append(txid)
         for i in ins:
             self.spent[i] = txid
+        self._index(txid)
         return txid
+
+    def _index(self, txid):
+        t = self.tx[txid]
+        hs = {o['pays'] for o in t['outs']} | {self.tx[p]['outs'][n]['pays'] for p, n in t['ins'] if p in self.tx}
+        for h in hs:
+            if h is not None:
+                self.by_addr.setdefault(h, []).append(txid)
+
+    def insert(self, txid, raw, ins, outs):
+        """a finished transaction (a recorded scenario step, or one the wallet itself built and 'broadcast') enters the mempool."""
+        unconf = any(p in self.tx and self.tx[p]['height'] <= 0 for p, _ in ins)
+        self.order += 1
+        self.tx[txid] = {'raw': raw, 'ins': list(ins), 'outs': outs, 'height': -1 if unconf else 0, 'order': self.order}
+        self.mempool.append(txid)
+        for i in ins:
+            self.spent[i] = txid
+        self._index(txid)
 
     def mine(self, txids=None):
         """confirms the given mempool txs (default: all whose parents are confirmed or in the same block, in arrival order)."""
@@ -111,6 +151,15 @@ class ToyChain:
         return False
 
     def history(self, h160):
+        # confirmed by (height, position in block) then mempool in arrival order; a block keeps the arrival order of its transactions,
+        # so both parts are the arrival-ordered index list sorted by height (judge() cross-checks samples against history_scan())
+        txs = self.by_addr.get(h160)
+        if not txs:
+            return []
+        conf = sorted((self.tx[t]['height'], self.tx[t]['order'], t) for t in txs if self.tx[t]['height'] > 0)
+        return [(t, h) for h, _, t in conf] + [(t, self.tx[t]['height']) for t in txs if self.tx[t]['height'] <= 0]
+
+    def history_scan(self, h160):
         out = []
         for h, blk in enumerate(self.blocks):
             for t in blk:
@@ -149,6 +198,8 @@ class Server:
         self.subscribed = {}        # address -> hash160
         self.last_sent = {}         # address -> status last told to the wallet
         self.calls = {'subscribe': 0, 'history': 0, 'batch': 0}
+        self.headers = None         # the wallet's header store (only to MEASURE how far it is behind when a transaction is served)
+        self.above_tip = {'one': 0, 'more': 0}
 
     async def retriable_call(self, function, *args, **kwargs):
         return await function(*args, **kwargs)
@@ -177,6 +228,12 @@ class Server:
     async def get_transaction_batch(self, txids, restricted=True):
         await self.ch.point('net:batch:pre')
         out = {t: (self.chain.tx[t]['raw'].hex(), self.chain.merkle(t)) for t in txids}
+        if self.headers is not None:
+            known = len(self.headers)       # heights 0..known-1 are stored by the wallet
+            for t in txids:
+                h = self.chain.tx[t]['height']
+                if h >= known:
+                    self.above_tip['one' if h == known else 'more'] += 1
         self.calls['batch'] += 1
         await self.ch.point('net:batch:post')
         return out
@@ -370,19 +427,14 @@ def replay_chain_prefix(full, upto_stage):
             if kind == 'tx':
                 t = full['chain'].tx[arg]
                 # re-insert with the recorded raw bytes / ids
-                unconf = any(p in c.tx and c.tx[p]['height'] <= 0 for p, _ in t['ins'])
-                c.order += 1
-                c.tx[arg] = {'raw': t['raw'], 'ins': t['ins'], 'outs': t['outs'], 'height': -1 if unconf else 0, 'order': c.order}
-                c.mempool.append(arg)
-                for i in t['ins']:
-                    c.spent[i] = arg
+                c.insert(arg, t['raw'], t['ins'], t['outs'])
             else:
                 c.mine()
     return c
 
 
 # ------------------------------------------------------------------------------ one run of a scenario under one schedule
-async def run_schedule(rec, scen, sched_seed, case):
+async def run_schedule(rec, scen, sched_seed, case, own=False):
     boot.import_lbry()
     from lbry.wallet import Wallet, Account, Ledger, Database
     from lbry.wallet.header import Headers
@@ -400,7 +452,10 @@ async def run_schedule(rec, scen, sched_seed, case):
             pp = R.unpack(hchain[-2]) if h >= 2 else None
             target = R.next_target(MAXT, pp, prev)
             bits, prev_hash = R.target_to_compact(target), R.header_hash(hchain[-1])
-        hchain.append(R.mine(1, prev_hash, root, bytes(32), 1_600_000_000 + 900 * h, bits, min(target, R.compact_to_target(bits))))
+        key = (h, prev_hash, root, bits)        # the schedules of one scenario mine the same blocks: the nonce search is done once
+        if key not in _S['mined']:
+            _S['mined'][key] = R.mine(1, prev_hash, root, bytes(32), 1_600_000_000 + 900 * h, bits, min(target, R.compact_to_target(bits)))
+        hchain.append(_S['mined'][key])
         return hchain[-1]
     g = mine_header(bytes(32))
 
@@ -413,6 +468,7 @@ async def run_schedule(rec, scen, sched_seed, case):
     await hdrs.connect(0, g)
     chain = ToyChain(random.Random(0))
     server = Server(chain, ch)
+    server.headers = hdrs
     ledger = Ledger({'db': Database(':memory:'), 'headers': hdrs, 'network': server})
     hdrs.checkpoints = {}
     await ledger.db.open()
@@ -431,7 +487,8 @@ async def run_schedule(rec, scen, sched_seed, case):
             import traceback
             tb = traceback.extract_tb(e.__traceback__)
             inner = [f for f in tb if '/lbry/' in f.filename][-1:] or tb[-1:]
-            died.append((type(e).__name__, f'{inner[0].filename.split("/lbry/")[-1]}:{inner[0].name}', str(e)[:200]))
+            died.append((type(e).__name__, f'{inner[0].filename.split("/lbry/")[-1]}:{inner[0].name}', str(e)[:200],
+                         f'wallet held {len(hdrs)} headers, server chain had {len(chain.blocks)} blocks'))
             raise
         finally:
             inflight[address] -= 1
@@ -456,6 +513,30 @@ async def run_schedule(rec, scen, sched_seed, case):
         # that a third notification for an address can arrive after the first update ended and while the second is running
         gaps = r.choice([[0, 0, 1, 2, 5, 12], [5, 20, 60, 150], [30, 100, 300, 600], [0, 10, 100, 400]])
 
+        # header and address notifications are independent streams of the server: in half of the schedules the header of a new block
+        # reaches the wallet only after (or while) the notifications about the transactions of that block are processed; the wallet is
+        # then 1-2 blocks behind the height the server reports for a transaction (own random stream: the other schedule draws stay as they are)
+        hr = random.Random(sched_seed * 2654435761 % (1 << 48) + 11)
+        hdr_lag = bool(case.get('hdr_lag', hr.random() < 0.5))
+        pending_hdrs = []       # (height, raw) of blocks the server has mined whose header the wallet has not received yet
+
+        async def deliver_headers(keep=0):
+            while len(pending_hdrs) > keep:
+                h, raw = pending_hdrs.pop(0)
+                ch.enabled = False
+                added = await hdrs.connect(h, raw)
+                ch.enabled = True
+                if added != 1:
+                    raise RuntimeError('harness: sim header rejected')
+
+        async def server_mines(keep):
+            h = chain.mine()
+            blk = chain.blocks[h]
+            root = M.root([bytes.fromhex(x)[::-1] for x in blk]) if blk else bytes(32)
+            pending_hdrs.append((h, mine_header(root)))
+            await deliver_headers(keep)
+            return h
+
         def notify_now():
             # streaming delivery: the status of every address the last step touched goes out at once, while the wallet may still be
             # working on earlier notifications for the same address (its history changes between two of its own history requests)
@@ -472,27 +553,135 @@ async def run_schedule(rec, scen, sched_seed, case):
                 ledger.process_status_update((a, st))
             return out
 
+        async def deliver_batch():
+            """one notification for every subscribed address whose status changed, seeded random order; returns when all are processed"""
+            changed = []
+            for a, h160 in list(server.subscribed.items()):
+                st = chain.status(h160)
+                if st != server.last_sent.get(a):
+                    server.last_sent[a] = st
+                    changed.append((a, st))
+            r.shuffle(changed)
+            for a, st in changed:
+                ledger.process_status_update((a, st))
+                for _ in range(r.choice([0, 0, 1, 3])):
+                    await asyncio.sleep(0)
+            await _quiesce(ledger)
+            return len(changed)
+
+        async def look(full):
+            ch.enabled = False
+            try:
+                return await (observe(ledger, accounts, scen) if full else observe_funds(accounts))
+            finally:
+                ch.enabled = True
+
+        async def own_payment_rounds(first_stage):
+            """Y7: the chain also grows by payments the WALLET builds (coin selection reserves the inputs), which come back through the
+            ordinary address notifications like any other transaction; some builds are never broadcast and released again. Reservations
+            are dropped at every daemon start (Ledger.start -> db.release_all_outputs): after such a 'restart' - before the payment is
+            synced, while it sits in the mempool or after it confirmed - balance and spendable set still have to be the reference's."""
+            from lbry.wallet import Transaction, Output
+            from lbry.error import InsufficientFundsError
+            nacc = scen['nacc']
+            for rnd in range(2):
+                stage = first_stage + rnd
+                # the server funds a wallet address within the gap, so that every round has something to spend
+                ai = r.randrange(nacc)
+                lst = _S['addr'][(ai, 0)]
+                paid = {o['pays'] for t in chain.tx.values() for o in t['outs'] if o['pays'] is not None}
+                top = max([n for n, (h, _a) in enumerate(lst) if h in paid], default=-1)
+                n = r.randrange(0, min(top + scen['gaps'][0], len(lst) - 1) + 1)
+                chain.add([(r.randbytes(32).hex(), 0)], [{'amount': r.randrange(10 ** 7, 10 ** 9), 'script': T.p2pkh(lst[n][0]), 'pays': lst[n][0],
+                                                          'kind': 'pay'}])
+                await deliver_batch()
+                # ---- the wallet builds 1-3 payments one after the other (each reserves its inputs)
+                ledger.coin_selection_strategy = r.choice([None, 'prefer_confirmed', 'sqlite'])
+                built, held = [], set()
+                for _ in range(r.choice([1, 1, 2, 3])):
+                    avail = sum(o['amount'] for t, tx in chain.tx.items() for k, o in enumerate(tx['outs'])
+                                if o['pays'] is not None and o['kind'] == 'pay' and (t, k) not in chain.spent and (t, k) not in held)
+                    if avail < 10 ** 6:
+                        break
+                    theirs = r.randbytes(20)
+                    outs = [Output.pay_pubkey_hash(max(1000, avail // r.choice([2, 4, 10, 100])), theirs)]
+                    if r.random() < 0.3:
+                        outs.append(Output.pay_pubkey_hash(r.randrange(1000, 10 ** 5), lst[r.randrange(0, n + 1)][0]))      # and one of its own addresses
+                    try:
+                        tx = await Transaction.create([], outs, accounts, r.choice(accounts))
+                    except InsufficientFundsError:
+                        rec.hit('own.build_refused')
+                        continue
+                    d = T.decode(tx.raw)
+                    if T.txid(d) != tx.id:
+                        raise RuntimeError('harness: reference decoder and wallet disagree about the id of the built payment')
+                    ins = [(i.prev_hash[::-1].hex(), i.prev_index) for i in d.inputs]
+                    touts = []
+                    for o in d.outputs:
+                        h160 = o.script[3:23] if len(o.script) == 25 and o.script == T.p2pkh(o.script[3:23]) else None
+                        mine = h160 is not None and h160 != theirs and _ref_owner(h160, nacc) is not None
+                        if h160 is not None and h160 != theirs and not mine:
+                            raise RuntimeError('harness: built payment pays a key hash that is neither the payee nor a reference wallet address')
+                        touts.append({'amount': o.amount, 'script': o.script, 'pays': h160 if mine else None, 'kind': 'pay' if mine else 'other'})
+                    held.update(ins)
+                    built.append((tx, ins, touts))
+                    rec.hit('own.payment_built')
+                # ---- broadcast (the server takes it into its mempool) or failed broadcast (the wallet releases the inputs again)
+                r.shuffle(built)
+                sent = []
+                restart = r.choice(['before_sync', 'in_mempool', 'confirmed', 'confirmed'])
+                for j, (tx, ins, touts) in enumerate(built):
+                    refused = any(i in chain.spent for i in ins)            # a server refuses a double spend (not expected from a synced wallet)
+                    if refused or (r.random() < 0.25 and (sent or j < len(built) - 1)):
+                        await ledger.release_tx(tx)
+                        rec.hit('own.double_spend_refused_by_server' if refused else 'own.broadcast_failed_inputs_released')
+                        continue
+                    chain.insert(tx.id, tx.raw, ins, touts)
+                    sent.append(tx)
+                    if streaming and restart != 'before_sync':
+                        notify_now()
+                        for _ in range(r.choice(gaps)):
+                            await asyncio.sleep(0)
+                if not sent:
+                    continue
+                if restart == 'before_sync':
+                    await ledger.db.release_all_outputs()
+                    rec.hit('own.restart_before_payment_synced')
+                else:
+                    ch.enabled = False
+                    rows = await ledger.db.db.execute_fetchall("select txoid from txo where is_reserved = 1")
+                    ch.enabled = True
+                    reserved = {row['txoid'] for row in rows}
+                    nres = sum(1 for tx in sent for i in tx.inputs if i.txo_ref.id in reserved)
+                    if nres:
+                        rec.hit('own.payment_synced_while_its_inputs_are_reserved', nres)
+                await deliver_batch()
+                if not judge(rec, scen, chain, server, await look(True), stage, died, case, sched_seed):
+                    return False
+                if restart == 'in_mempool':
+                    await ledger.db.release_all_outputs()
+                    if not judge_released(rec, chain, await look(False), stage, case, sched_seed, 'payment in mempool'):
+                        return False
+                await server_mines(hr.choice([0, 1, 1, 2]) if hdr_lag else 0)
+                await deliver_batch()
+                await deliver_headers()
+                if not judge(rec, scen, chain, server, await look(True), stage, died, case, sched_seed):
+                    return False
+                await ledger.db.release_all_outputs()
+                if not judge_released(rec, chain, await look(False), stage, case, sched_seed, 'payment confirmed'):
+                    return False
+                rec.hit('own.rounds')
+                rec.case([case['seed'], ch.signature(), stage], nontrivial=True)
+            return True
+
         for si, steps in enumerate(scen['stages']):
             # ---- the server's chain grows
             for kind, arg in steps:
                 if kind == 'tx':
                     t = scen['chain'].tx[arg]
-                    unconf = any(p in chain.tx and chain.tx[p]['height'] <= 0 for p, _ in t['ins'])
-                    chain.order += 1
-                    chain.tx[arg] = {'raw': t['raw'], 'ins': t['ins'], 'outs': t['outs'], 'height': -1 if unconf else 0, 'order': chain.order}
-                    chain.mempool.append(arg)
-                    for i in t['ins']:
-                        chain.spent[i] = arg
+                    chain.insert(arg, t['raw'], t['ins'], t['outs'])
                 else:
-                    h = chain.mine()
-                    blk = chain.blocks[h]
-                    root = M.root([bytes.fromhex(x)[::-1] for x in blk]) if blk else bytes(32)
-                    raw = mine_header(root)
-                    ch.enabled = False
-                    added = await hdrs.connect(h, raw)
-                    ch.enabled = True
-                    if added != 1:
-                        raise RuntimeError('harness: sim header rejected')
+                    await server_mines(hr.choice([0, 1, 1, 2]) if hdr_lag else 0)
                 if streaming:
                     notify_now()
                     for _ in range(r.choice(gaps)):
@@ -523,11 +712,16 @@ async def run_schedule(rec, scen, sched_seed, case):
                 if any(x in pos_of and y in pos_of and pos_of[x] < pos_of[y] for x in a_out for y in a_in):
                     rec.hit('stage.change_notified_before_spent_address')
                     break
-            for a, st in changed:
+            hdr_at = hr.randrange(len(changed)) if pending_hdrs and changed and hr.random() < 0.3 else None
+            for i, (a, st) in enumerate(changed):
+                if i == hdr_at:
+                    await deliver_headers()         # the late header arrives while the notifications are being worked on
                 ledger.process_status_update((a, st))
                 for _ in range(r.choice([0, 0, 1, 3])):
                     await asyncio.sleep(0)
             await _quiesce(ledger)
+            if hr.random() < 0.7:
+                await deliver_headers()             # ... or after all of them were processed (else: with a later block)
             ch.enabled = False
             obs = await observe(ledger, accounts, scen)
             ch.enabled = True
@@ -543,7 +737,13 @@ async def run_schedule(rec, scen, sched_seed, case):
                              'server_calls': dict(server.calls)} if si == len(scen['stages']) - 1 else None)
             if not ok:
                 break
+        else:
+            if case.get('own_payments', own):
+                await own_payment_rounds(len(scen['stages']))
         rec.hit('chaos.points', ch.points)
+        for k, n in server.above_tip.items():
+            if n:
+                rec.hit({'one': 'hdr.tx_served_one_block_above_wallet_tip', 'more': 'hdr.tx_served_further_above_wallet_tip'}[k], n)
     finally:
         chaos_mod.uninstall_db()
         ledger._update_tasks.cancel()
@@ -579,6 +779,40 @@ async def observe(ledger, accounts, scen):
     return obs
 
 
+async def observe_funds(accounts):
+    obs = {'spendable': 0, 'total': 0, 'utxos': set()}
+    for acc in accounts:
+        obs['spendable'] += await acc.get_balance()
+        obs['total'] += await acc.get_balance(include_claims=True)
+        for t in await acc.get_utxos():
+            obs['utxos'].add(t.id)
+    return obs
+
+
+def judge_released(rec, chain, obs, stage, case, sched_seed, when):
+    """Y7: no reservation is left (they were just released, as at a daemon start): balance and spendable set are the reference's; in
+    particular no output that a known transaction spends is spendable again."""
+    suffix = '/scenario-with-no-template-output' if case.get('odd') else ''
+    rec.hit('Y7.checked')
+    unspent = {(t, n): o for t, tx in chain.tx.items() for n, o in enumerate(tx['outs']) if o['pays'] is not None and (t, n) not in chain.spent}
+    want_spendable = sum(o['amount'] for o in unspent.values() if o['kind'] == 'pay')
+    want_total = sum(o['amount'] for o in unspent.values())
+    want_utxos = {f'{k[0]}:{k[1]}' for k, o in unspent.items() if o['kind'] == 'pay'}
+    if obs['utxos'] == want_utxos and obs['spendable'] == want_spendable and obs['total'] == want_total:
+        return True
+    extra = sorted(obs['utxos'] - want_utxos)
+    respent = [x for x in extra if (x.rsplit(':', 1)[0], int(x.rsplit(':', 1)[1])) in chain.spent]
+    what = 'output-spent-by-known-transaction-spendable-again' if respent else 'funds-differ'
+    rec.violation(f'C09/Y7/{what}-after-reservations-released{suffix}',
+                  f'stage {stage} ({when}, reservations released as at a daemon start): spendable {obs["spendable"]} (reference {want_spendable}), '
+                  f'total {obs["total"]} (reference {want_total}), get_utxos() has {len(extra)} extra ({len(respent)} of them spent by a synced '
+                  f'transaction) and lacks {len(want_utxos - obs["utxos"])} outputs',
+                  {'extra': extra[:4], 'spent_by': [chain.spent[(x.rsplit(':', 1)[0], int(x.rsplit(':', 1)[1]))] for x in respent[:4]],
+                   'missing': sorted(want_utxos - obs['utxos'])[:4], 'spendable': obs['spendable'], 'want_spendable': want_spendable,
+                   'schedule_seed': sched_seed})
+    return False
+
+
 def judge(rec, scen, chain, server, obs, stage, died, case, sched_seed):
     odd = case.get('odd')
     suffix = '/scenario-with-no-template-output' if odd else ''
@@ -600,6 +834,10 @@ def judge(rec, scen, chain, server, obs, stage, died, case, sched_seed):
     want_spendable = sum(o['amount'] for o in unspent.values() if o['kind'] == 'pay')
     want_total = sum(o['amount'] for o in unspent.values())
     want_utxos = {f'{k[0]}:{k[1]}' for k, o in unspent.items() if o['kind'] == 'pay'}
+    for (ai, c), lst in _S['addr'].items():         # harness self-check: the indexed history is the scanned one
+        for n in range(stage % 6, len(lst), 6):
+            if ai < scen['nacc'] and chain.history(lst[n][0]) != chain.history_scan(lst[n][0]):
+                raise RuntimeError('harness: indexed address history differs from the scanned one')
     # ---- Y4a: every address the server funded is known to the wallet (discovered)
     rec.hit('Y4.checked')
     known = {}
@@ -667,13 +905,14 @@ def judge(rec, scen, chain, server, obs, stage, died, case, sched_seed):
 
 async def _case(rec, case):
     scen = make_scenario(case['seed'], case.get('odd'))
+    _S['mined'] = {}
     for h in scen['hits']:
         rec.hit(h)
     finals = []
     for k in range(3):
         if rec.out_of_time() and k > 0:
             break
-        obs = await run_schedule(rec, scen, case['seed'] * 7 + k, case)
+        obs = await run_schedule(rec, scen, case['seed'] * 7 + k, case, own=(k == case['seed'] % 3))     # Y7 rounds after one of the schedules
         if len(obs) == len(scen['stages']):
             o = obs[-1]
             finals.append((sorted(o['history'].items()), o['spendable'], o['total'], sorted(o['utxos'])))
